@@ -126,9 +126,11 @@ func methodBodyBlock(itf *idl.InterfaceType, method idl.Method,
 		writing = append(writing, code)
 	}
 
-	for _, param := range method.Params {
-		params = append(params, jen.Id(param.Name))
-		code = jen.List(jen.Id(param.Name), jen.Err()).Op(":=").Add(
+	for i, param := range method.Params {
+		// same name as in the implementor interface and the proxy.
+		varName := signature.CleanVarName(i, param.Name)
+		params = append(params, jen.Id(varName))
+		code = jen.List(jen.Id(varName), jen.Err()).Op(":=").Add(
 			param.Type.Unmarshal("buf"),
 		)
 		writing = append(writing, code)
@@ -219,9 +221,9 @@ func propertyBodyBlock(itf *idl.InterfaceType, property idl.Property,
 	code := jen.Var().Id("buf").Qual("bytes", "Buffer")
 	writing = append(writing, code)
 
-	for _, param := range property.Params {
+	for i, param := range property.Params {
 		code = jen.If(jen.Err().Op(":=").Add(
-			param.Type.Marshal(param.Name, "&buf"),
+			param.Type.Marshal(signature.CleanVarName(i, param.Name), "&buf"),
 		).Op(";").Err().Op("!=").Nil()).Block(
 			jen.Id(`return fmt.Errorf("serialize ` +
 				param.Name + `: %s", err)`),
@@ -253,9 +255,9 @@ func signalBodyBlock(itf *idl.InterfaceType, signal idl.Signal,
 	code := jen.Var().Id("buf").Qual("bytes", "Buffer")
 	writing = append(writing, code)
 
-	for _, param := range signal.Params {
+	for i, param := range signal.Params {
 		code = jen.If(jen.Err().Op(":=").Add(
-			param.Type.Marshal(param.Name, "&buf"),
+			param.Type.Marshal(signature.CleanVarName(i, param.Name), "&buf"),
 		).Op(";").Err().Op("!=").Nil()).Block(
 			jen.Id(`return fmt.Errorf("serialize ` +
 				param.Name + `: %s", err)`),
